@@ -120,6 +120,9 @@ def ref_leaf(name, v):
         if k in ('int', 'float', 'str'):
             return _try(fractions.Fraction, v)
         return _unspec('bool_as_number') if k == 'bool' else _rej('kind')
+    if name == 'sub_date':
+        # a subclass of a date/time type is read like its base and comes out as the subclass
+        return _try(grammar.SubDate.fromisoformat, v) if k == 'str' else _rej('kind')
     if name in ('date', 'time', 'datetime'):
         cls = getattr(datetime, name)
         return _try(cls.fromisoformat, v) if k == 'str' else _rej('kind')
@@ -494,7 +497,7 @@ LEAF_MEMBERS: t.Dict[str, t.List[t.Any]] = {
     'str': ['', 'abc', '12'], 'bytes': [b'ab', bytearray(b'x')], 'bytearray': [b'ab', bytearray(b'x')],
     'bool': [True, False], 'none': [None],
     'decimal': ['1.5', 2, 0.25], 'fraction': ['1/3', 2, 0.5],
-    'date': ['2023-09-05'], 'time': ['11:11:11'], 'datetime': ['2023-09-05T11:11:11', '2023-09-05'],
+    'date': ['2023-09-05'], 'sub_date': ['2023-09-05', '2024-02-29'], 'time': ['11:11:11'], 'datetime': ['2023-09-05T11:11:11', '2023-09-05'],
     'pattern': ['a+b', ''], 'pattern_bytes': [b'a+'],
     'purepath': ['a/b'], 'pureposixpath': ['/a/b'], 'path': ['a/b', '~/d'], 'pathlike': ['a/b', '~/d'],
     'any': [1, 'a', [1, 'x'], {'a': [1]}, None],
@@ -787,7 +790,7 @@ def check_serial(ast, x, d, path='$') -> t.Optional[str]:
             want = {'sub_str': str, 'sub_int': int, 'sub_float': float}[ast](x)
         elif ast in ('decimal', 'fraction', 'purepath', 'pureposixpath', 'path', 'pathlike'):
             want = str(x)
-        elif ast in ('date', 'time', 'datetime'):
+        elif ast in ('date', 'time', 'datetime', 'sub_date'):
             want = x.isoformat()
         elif ast in ('pattern', 'pattern_bytes'):
             want = x.pattern
